@@ -56,10 +56,20 @@ def signature(pid, what, source, case, events):
     f, r, x = _ev(events, "Format"), _ev(events, "Reparse"), _ev(events, "Reformat")
     meta = case.get("meta", {}) or {}
     tag = meta.get("sig") or ""
+    rd = _ev(events, "Render")
+    if rd.get("slot_ctx"):
+        tag = ";".join("%s@%s|%s" % (c["kind"], c["prev"], c["next"]) for c in rd["slot_ctx"])
+        cfg = (f or r or x).get("cfg", {})
+        opts = ["%s=%s" % (k, v) for k, v in sorted(cfg.items()) if k not in ("column_width", "syntax") and v not in ("Never", "Always")
+                or (k == "collapse_simple_statement" and v == "Always")]
+        if opts:
+            tag += ";" + ",".join(opts)
     if what in ("reparse",):
         return "%s|reparse|%s|%s" % (source, tag, strip_pos(r.get("msg", "")))
     if what in ("meaning", "grouping"):
         return "%s|%s|%s|%s" % (source, what, tag, r.get("meaning_site", json.dumps(r.get("meaning_first_diff", ""))))
+    if what == "tokens" and rd.get("slot_ctx"):
+        return "%s|tokens|%s" % (source, tag)
     if what == "tokens":
         d = f.get("nf_diff", {})
         if isinstance(d, dict):
